@@ -188,6 +188,25 @@ def plan(prop, tier):
         P["relevant"] = r"^(snapshot|coll|lower|reopen|heldsnap)"
         P["rule"] = ("the data-path behaviours replayed under seeded adversarial concretisations (empty key, 0x00/0xFF, magic-like bytes, prefix-sharing keys, empty values); "
                      "non-trivial = two or more sections non-empty at some observation")
+
+    elif prop == "C15":
+        import check_store
+        P["exhaustive"] = [("c15_handles", C(NKeys=1, OpAlpha='{"s1"}', MaxOps=1, MaxBatches=2, MaxSnaps=2, MaxReopens=1, MaxPokes=0), ["ViewIsRef", "Structure"]),
+                           ("c15_refs", check_store.C(MaxBatches=3, MaxSnaps=2, MaxReopens=1, MaxCrashes=0, Kinds='{"append","full"}'),
+                            ["AllClosedAllReleased", "SnapFilesExist", "CurrentFileExists", "OldFilesGoAway", "OnlyCurrentFileAfterClose"], "MCStore.tla")]
+        P["sim"] = [("c15_walk", C(MaxBatches=6, MaxPokes=2, SimLen=22, MaxSnaps=2, MaxReopens=1, InitKeys="{1}"), 80 if q else 600),
+                    ("c15_walk_kids", C(Tree='"aa"', NKeys=1, OpAlpha='{"s1","d"}', MaxOps=1, MaxBatches=6, MaxPokes=2, SimLen=22, MaxSnaps=2, MaxReopens=1), 80 if q else 600)]
+        P["edges"] = []
+        P["leads"] = [("c15_lead_refs", check_store.C(MaxBatches=3, MaxSnaps=1, MaxReopens=1, Kinds='{"append","full"}'), ["ChildFootersNotReleased"], ["LeadAllClosedAllReleased"], "MCStore.tla")]
+        P["dims"] = {"c15_walk": [dims("store", preload=[1], leakCheck=True), dims("store", preload=[1], leakCheck=True, compaction="force", closeOrder="storeFirst"),
+                                  dims("store", preload=[1], leakCheck=True, compaction="force", keepFiles=True)],
+                     "c15_walk_kids": [dims("store", "aa", 1, leakCheck=True), dims("store", "aa", 1, leakCheck=True, compaction="force"),
+                                       dims("store", "aa", 1, leakCheck=True, compaction="allow", levelMaxSegs=1, levelMult=2, closeOrder="storeFirst")],
+                     "c15_lead_refs": []}
+        P["relevant"] = r"^leak\.|^heldsnap|^heldstore"
+        P["rule"] = ("behaviours with collection snapshots, child snapshots and a store snapshot held across batches, persistence, forced compaction, Close and reopen; every held "
+                     "handle is re-read after every step; when the behaviour ends (and after every CloseEnd with nothing held) everything left open is closed in the order "
+                     "the dimensions choose and /proc/self/fd, /proc/self/maps and the directory listing are polled; non-trivial = a handle was held across a persistence round or a close")
     else:
         raise Infra("no plan for %s" % prop)
     return P
@@ -228,6 +247,14 @@ def generate(rep, work, name, consts, kind, n, sd):
 
 def nontrivial(prop, r, beh):
     acts = [s["act"] for s in beh]
+    if prop == "C15":
+        held = False
+        for a in acts:
+            if a == "TakeSnapshot":
+                held = True
+            if held and a in ("PersisterSwap", "CloseEnd"):
+                return True
+        return "Reopen" in acts
     def has_op(o):
         return any(s["act"] == "ExecuteBatch" and any(op["o"] == o for n in s["arg"].values() for op in n["ops"]) for s in beh)
     if prop == "C04":
@@ -295,10 +322,12 @@ def run(prop, tier):
     findings = vlib.load_findings()
     sd = vlib.seed()
     # 1. exhaustive invariants on the bounded model
-    for name, consts, invs in P["exhaustive"]:
+    for ex in P["exhaustive"]:
+        name, consts, invs = ex[0], ex[1], ex[2]
+        module = ex[3] if len(ex) > 3 else "MCColl.tla"
         cfg = os.path.join(work, name + ".cfg")
-        vlib.write_cfg(cfg, consts, invariants=invs, properties=["UptoMonotone"], view="view")
-        res = vlib.run_tlc("MCColl.tla", cfg, work, timeout=1500)
+        vlib.write_cfg(cfg, consts, invariants=invs, properties=["UptoMonotone"] if module == "MCColl.tla" else [], view="view")
+        res = vlib.run_tlc(module, cfg, work, timeout=1500)
         rep.add_tlc(name, res, consts)
         if res.violation:
             # a counterexample on the model alone is a lead, not a verdict (R1); it is reported as drift of the design
@@ -309,7 +338,19 @@ def run(prop, tier):
     # 2+3. behaviours and replay
     os.environ["VERIF_TIER"] = tier
     gens = [("sim", n, c, cnt) for (n, c, cnt) in P["sim"]] + [("edges", n, c, 0) for (n, c) in P["edges"]] \
-        + [("lead", n, c, (dv, iv)) for (n, c, dv, iv) in P.get("leads", [])]
+        + [("lead", n, c, (dv, iv)) for (n, c, dv, iv) in [l[:4] for l in P.get("leads", []) if len(l) == 4]]
+    for l in [l for l in P.get("leads", []) if len(l) > 4]:   # leads of another module: model-level vacuity guard only
+        n, c, dv, iv, module = l
+        c = dict(c)
+        c["Devs"] = vlib.tla_set(dv)
+        cfg = os.path.join(work, n + ".cfg")
+        cnt = []
+        vlib.write_cfg(cfg, c, invariants=iv, view="view")
+        res = vlib.run_tlc(module, cfg, work, timeout=1200, beh_sink=cnt.append)
+        rep.add_tlc(n + " (deviation %s must violate the invariant on the model)" % ",".join(dv), res, c)
+        rep.extra.setdefault("leads", []).append({"config": n, "devs": dv, "violating_states": len(cnt)})
+        if not cnt:
+            rep.infra.append("vacuity: deviation %s produced no violating state in %s" % (dv, n))
     for kind, name, consts, cnt in gens:
         behs = generate(rep, work, name, consts, kind, cnt, sd)
         if not behs:
